@@ -5,6 +5,7 @@ import json
 import os
 import shutil
 
+import ext.filename
 import ext.pem
 import flow
 import gen
@@ -757,6 +758,7 @@ def run(ctx):
         run_huge(ctx, os.path.join(scratch, "huge"))
         hists += [gen_history(ctx.rng, pool, w) for _ in range(300 if ctx.quick() else 10000)]
         run_histories(ctx, hists, w, helper, os.path.join(scratch, "hist"))
+        ext.filename.extend(ctx, helper)
         flows(ctx, 10 if ctx.quick() else 300, os.path.join(scratch, "flows"), mockca.Helper)
     finally:
         helper.close()
@@ -786,6 +788,8 @@ def replay(ctx):
     try:
         if obj.get("kind") == "huge":
             run_huge(ctx, os.path.join(scratch, "huge"))
+        elif obj.get("kind") in ("filename", "filename-rev"):
+            ext.filename.replay(ctx, obj)
         elif obj.get("kind") == "flow":
             obs, crt_path, key_path, pre_key = run_flow(obj["spec"], os.path.join(scratch, "f"), helper)
             judge_flow(ctx, obj["spec"], obs, crt_path, key_path, pre_key, helper)
